@@ -32,6 +32,40 @@ func VerifHarness_C16_AcceptedArityNeverArityError() {
 	verifrt.Reach("end")
 }
 
+// C16: the same when the operands are not single items: an input or an argument that evaluates to no item or to two
+// items is not a wrong number of arguments (the call was accepted with that many), whatever else it is.
+func VerifHarness_C16_ArityErrorOnlyForArgumentCount() {
+	t := verifFullTable()
+	names := verifNames(t)
+	name := names[verifrt.Choose("fn", len(names))]
+	verifrt.Tag("fnName", name)
+	fn := t[name]
+	n := verifrt.Choose("nargs", 4)
+	verifrt.Assume(fn.MinArity <= n && n <= fn.MaxArity)
+	verifrt.Assume(verifrt.Thorough() || verifKind(name) != "number")
+	recv := verifReceiverFor(name)
+	switch verifrt.Choose("recv.shape", 3) {
+	case 1:
+		recv = system.Collection{}
+	case 2:
+		recv = system.Collection{recv[0], recv[0]}
+	}
+	var args []expr.Expression
+	for i := 0; i < n; i++ {
+		switch verifrt.Choose("arg.shape", 3) {
+		case 0:
+			args = append(args, verifArgFor(name, i))
+		case 1:
+			args = append(args, &expr.LiteralExpression{})
+		default:
+			args = append(args, verifConst(system.Collection{system.String("a"), system.String("b")}))
+		}
+	}
+	_, err := fn.Func(verifCtx(), recv, args...)
+	verifrt.Assert(!errors.Is(err, impl.ErrWrongArity), "accepted-call-never-fails-with-arity-error")
+	verifrt.Reach("end")
+}
+
 // C16: every name of the specification is in the table, and its bounds contain every argument count the
 // specification allows for it (otherwise a specified call is rejected at Compile as "wrong arity").
 func VerifHarness_C16_SpecNamesAndArities() {
